@@ -57,7 +57,7 @@ def isReservedVerilogKeyword(str):
     reserved95 = ['always','and','assign',
                 'begin','buf','bufif0','bufif1',
                 'case','casex','casez','cmos',
-                'deassign','default','defparam','disable',
+                'deassign','default','defparam','design','disable',
                 'edge','else','end','endcase','endfunction','endmodule','endprimitive','endspecify','endtable','endtask','event',
                 'for','force','forever','fork','function',
                 'highz0','highz1',
@@ -84,7 +84,7 @@ def isReservedVerilogKeyword(str):
                     'noshowcancelled',
                     'pulsestyle_ondetect','pulsestyle_onevent',
                     'showcancelled','signed',
-                    'unsigned','use' ]
+                    'unsigned','use','uwire' ]
 
 
     reservedSV = ['accept_on','alias','always_comb','always_ff','always_latch','assert','assume',
